@@ -426,7 +426,7 @@ func (rt *runtime) convertCallParameter(v Value, t reflect.Type) (reflect.Value,
 			return rt.convertNumeric(v, t), nil
 		}
 	case reflect.Slice:
-		if o := v.object(); o != nil {
+		if o := v.object(); o != nil && (o.class == classArrayName || o.class == classGoArrayName || o.class == classGoSliceName) {
 			if lv := o.get(propertyLength); lv.IsNumber() {
 				l := lv.number().int64
 
